@@ -1155,3 +1155,304 @@ func innermostDeps(b *ssa.BasicBlock) []*ssa.If {
 	}
 	return out
 }
+
+// ---------------------------------------------------------------- C09-R7: polarity of the handler's decisions
+
+func c09r7(c *core.Ctx) {
+	p := c.P
+	f := p.Func("hap/http", "(*Server).Characteristics")
+	if f == nil {
+		c.Undecided("Characteristics", token.NoPos, "not found")
+		return
+	}
+	// ids: ?id=<aid>.<iid>,<aid>.<iid> — key "id", separators "," and ".", aid = part 0, iid = part 1
+	var lookups []*ssa.Call
+	core.Instrs(f, func(i ssa.Instruction) {
+		if call, ok := i.(*ssa.Call); ok && core.Callee(call) != nil && cn(core.Callee(call)) == "getCharacteristic" {
+			lookups = append(lookups, call)
+		}
+	})
+	partIndex := func(v ssa.Value) (int64, string, bool) {
+		// v = to.Uint64(parts[k]) with parts = strings.Split(x, sep)
+		for _, s := range core.Sources(v) {
+			call, ok := s.(*ssa.Call)
+			if !ok {
+				continue
+			}
+			for _, a := range call.Call.Args {
+				for _, as := range core.Sources(a) {
+					u, ok := as.(*ssa.UnOp)
+					if !ok {
+						continue
+					}
+					ia, ok := u.X.(*ssa.IndexAddr)
+					if !ok {
+						continue
+					}
+					k, isK := core.ConstInt(ia.Index)
+					if !isK {
+						continue
+					}
+					for _, ps := range core.Sources(ia.X) {
+						if sp, ok := ps.(*ssa.Call); ok && core.IsCall(sp, "strings.Split") {
+							sep, _ := core.ConstString(sp.Call.Args[1])
+							return k, sep, true
+						}
+					}
+				}
+			}
+		}
+		return 0, "", false
+	}
+	okIDs := false
+	for _, l := range lookups {
+		a := core.Args(l)
+		k0, s0, ok0 := partIndex(a[0])
+		k1, s1, ok1 := partIndex(a[1])
+		if ok0 && ok1 {
+			okIDs = k0 == 0 && k1 == 1 && s0 == "." && s1 == "."
+		}
+	}
+	c.Check(okIDs, "id-parsing@"+fname(f), f.Pos(), "aid is part 0 and iid part 1 of the \".\"-separated id", "the requested id is not split as <aid>.<iid> (wrong separator or swapped parts): another characteristic is answered than the one requested")
+	listOK := false
+	core.Instrs(f, func(i ssa.Instruction) {
+		if core.IsCall(i, "strings.Split") {
+			if sep, _ := core.ConstString(core.Args(i)[1]); sep == "," {
+				if core.AnySource(core.Args(i)[0], func(s ssa.Value) bool {
+					call, ok := s.(*ssa.Call)
+					if !ok || !core.IsCall(call, "(net/url.Values).Get") {
+						return false
+					}
+					k, _ := core.ConstString(call.Call.Args[1])
+					return k == "id"
+				}) {
+					listOK = true
+				}
+			}
+		}
+	})
+	c.Check(listOK, "id-list@"+fname(f), f.Pos(), "the id list is the \",\"-separated form value \"id\"", "the id list is not read from the form value \"id\" split at \",\"")
+	// value only for a found characteristic, error status only for a missing one
+	for _, l := range lookups {
+		found := core.NonNilFact(func(v ssa.Value) bool { return v == ssa.Value(l) })
+		missing := core.IsNilFact(func(v ssa.Value) bool { return v == ssa.Value(l) })
+		core.Instrs(f, func(i ssa.Instruction) {
+			if call, ok := i.(*ssa.Call); ok && core.Callee(call) != nil && (cn(core.Callee(call)) == "GetValueFromConnection" || cn(core.Callee(call)) == "UpdateValueFromConnection") && call.Call.Args[0] == ssa.Value(l) {
+				c.Check(core.Dominated(call, found), "use-only-if-found@"+fname(f)+":"+cn(core.Callee(call)), call.Pos(), "the characteristic is used only on the found branch of the lookup", "the looked-up characteristic is used on the not-found branch (nil): the request panics, and found ones are answered as missing")
+			}
+		})
+		// the error status of the GET branch
+		core.Instrs(f, func(i ssa.Instruction) {
+			st, ok := i.(*ssa.Store)
+			if !ok {
+				return
+			}
+			fa, ok := st.Addr.(*ssa.FieldAddr)
+			if !ok || fieldNameOf(fa) != "Status" || core.IsNilConst(st.Val) {
+				return
+			}
+			al := allocOf(st.Val)
+			if al == nil {
+				if a2, ok := st.Val.(*ssa.Alloc); ok {
+					al = a2
+				}
+			}
+			if al == nil {
+				return
+			}
+			var code int64
+			has := false
+			for _, r := range *al.Referrers() {
+				if s2, ok := r.(*ssa.Store); ok && s2.Addr == ssa.Value(al) {
+					code, has = core.ConstInt(s2.Val)
+				}
+			}
+			if !has {
+				return
+			}
+			switch {
+			case code == -70402 && l.Parent() == st.Parent() && reachesAfter(l, st) && !reachesAfter(st, l) || code == -70402:
+				if instrDominates(l, st) {
+					c.Check(core.Dominated(st, missing), "error-status-only-if-missing@"+fname(f), st.Pos(), "the not-found status is set only on the missing branch", "the not-found status is set for a characteristic that was found")
+				}
+			case code == 0:
+				// the fill-in value for successful entries must be 0 and only where no status is set yet
+				isUnset := core.IsNilFact(func(v ssa.Value) bool {
+					u, ok := v.(*ssa.UnOp)
+					if !ok {
+						return false
+					}
+					fa2, ok := u.X.(*ssa.FieldAddr)
+					return ok && fieldNameOf(fa2) == "Status"
+				})
+				c.Check(core.Dominated(st, isUnset), "ok-status-only-if-unset@"+fname(f), st.Pos(), "status 0 is filled in only where no status is set", "status 0 overwrites (or is skipped for) entries regardless of whether they already carry an error status")
+			}
+		})
+	}
+	// 207 iff some entry failed; 204 iff nothing to report
+	var flag *ssa.Phi
+	core.Instrs(f, func(i ssa.Instruction) {
+		if ph, ok := i.(*ssa.Phi); ok && ph.Comment == "err" {
+			if b, ok := ph.Type().Underlying().(*types.Basic); ok && b.Kind() == types.Bool && flag == nil {
+				flag = ph
+			}
+		}
+	})
+	core.Instrs(f, func(i ssa.Instruction) {
+		if !core.IsInvoke(i, "net/http.ResponseWriter", "WriteHeader") {
+			return
+		}
+		code, ok := core.ConstInt(core.Args(i)[0])
+		if !ok {
+			return
+		}
+		switch code {
+		case 207:
+			if flag == nil {
+				c.Undecided("multi-status-flag@"+fname(f), posOf(i), "the flag that records a failed entry was not recognised")
+				return
+			}
+			c.Check(core.Dominated(i, core.TrueFact(func(v ssa.Value) bool { return v == ssa.Value(flag) })), "multi-status-iff-failure@"+fname(f), posOf(i), "207 is written only when some entry failed", "207 is not tied to 'some entry failed' (the test is inverted or missing)")
+			// the flag becomes true exactly on the path that stored an error status
+			setOK := false
+			for _, e := range flag.Edges {
+				if ph2, ok := e.(*ssa.Phi); ok {
+					for k, e2 := range ph2.Edges {
+						if v, isK := core.ConstInt(e2); isK && v == 1 {
+							// predecessor block k stores an error status
+							pred := ph2.Block().Preds[k]
+							for _, x := range pred.Instrs {
+								if st, ok := x.(*ssa.Store); ok {
+									if fa, ok := st.Addr.(*ssa.FieldAddr); ok && fieldNameOf(fa) == "Status" {
+										setOK = true
+									}
+								}
+							}
+						}
+					}
+				}
+			}
+			c.Check(setOK, "failure-flag-set@"+fname(f), posOf(i), "the failure flag is set where an error status is stored", "storing an error status does not set the failure flag: the answer goes out as 200 with a status member only on the failed entry")
+		case 204:
+			empty := func(cond ssa.Value) (bool, bool) {
+				b, ok := cond.(*ssa.BinOp)
+				if !ok {
+					return false, false
+				}
+				call, isCall := b.X.(*ssa.Call)
+				if !isCall {
+					return false, false
+				}
+				bi, ok := call.Call.Value.(*ssa.Builtin)
+				if !ok || bi.Name() != "len" {
+					return false, false
+				}
+				if k, isK := core.ConstInt(b.Y); isK && k == 0 {
+					switch b.Op {
+					case token.EQL:
+						return true, false
+					case token.NEQ, token.GTR:
+						return false, true
+					}
+				}
+				return false, false
+			}
+			if i.Parent() == f {
+				c.Check(core.Dominated(i, empty), "no-content-iff-empty@"+fname(f), posOf(i), "204 is written only when there is no entry to report", "204 No Content is written although entries with a status have to be reported (or the body is written when there is nothing to report)")
+			}
+		}
+	})
+	// subscribe on ev:true, unsubscribe on ev:false
+	core.Instrs(f, func(i ssa.Instruction) {
+		isSub := core.IsInvoke(i, qSession, "Subscribe")
+		isUnsub := core.IsInvoke(i, qSession, "Unsubscribe")
+		if !isSub && !isUnsub {
+			return
+		}
+		evTrue := core.TrueFact(func(v ssa.Value) bool {
+			e, ok := v.(*ssa.Extract)
+			if !ok || e.Index != 0 {
+				return false
+			}
+			ta, ok := e.Tuple.(*ssa.TypeAssert)
+			if !ok {
+				return false
+			}
+			_, isEv := core.FieldLoad(ta.X, tCharReq, "Events")
+			return isEv
+		})
+		evFalse := func(cond ssa.Value) (bool, bool) { t, fl := evTrue(cond); return fl, t }
+		okAssert := core.TrueFact(func(v ssa.Value) bool {
+			e, ok := v.(*ssa.Extract)
+			if !ok || e.Index != 1 {
+				return false
+			}
+			ta, ok := e.Tuple.(*ssa.TypeAssert)
+			if !ok {
+				return false
+			}
+			_, isEv := core.FieldLoad(ta.X, tCharReq, "Events")
+			return isEv
+		})
+		if isSub {
+			c.Check(core.Dominated(i, evTrue) && core.Dominated(i, okAssert), "subscribe-on-true@"+fname(f), posOf(i), "Subscribe only for ev:true (a boolean)", "Subscribe is not tied to ev:true: ev:false subscribes (and ev:true unsubscribes)")
+		} else {
+			c.Check(core.Dominated(i, evFalse) && core.Dominated(i, okAssert), "unsubscribe-on-false@"+fname(f), posOf(i), "Unsubscribe only for ev:false", "Unsubscribe is not tied to ev:false")
+		}
+	})
+	// WriteJSON writes the body only when encoding succeeded
+	if wj := p.Func("hap/http", "WriteJSON"); wj != nil {
+		encOK := errNilFact(1, func(i ssa.Instruction) bool { g := core.Callee(i); return g != nil && cn(g) == "JSONEncode" })
+		core.Instrs(wj, func(i ssa.Instruction) {
+			if core.IsInvoke(i, "io.Writer", "Write") {
+				c.Check(core.Dominated(i, encOK), "body-only-if-encoded@"+fname(wj), posOf(i), "the body is written only when encoding succeeded", "the body is written although encoding failed (or not written when it succeeded)")
+			}
+		})
+	}
+	// chunk end: end = len(p) exactly when nn+chunk exceeds it
+	if cw := p.Func("hap", "(*chunkedWriter).Write"); cw != nil {
+		core.Instrs(cw, func(i ssa.Instruction) {
+			sl, ok := i.(*ssa.Slice)
+			if !ok || sl.High == nil {
+				return
+			}
+			ph, ok := sl.High.(*ssa.Phi)
+			if !ok {
+				return
+			}
+			good := false
+			for k, e := range ph.Edges {
+				if isLenOf(e, cw.Params[1]) || func() bool { c2, ok := e.(*ssa.Call); return ok && isLenOfCall(c2, cw.Params[1]) }() {
+					// this edge must come from the true branch of "sum > len"
+					pred := ph.Block().Preds[k]
+					for _, pp := range pred.Preds {
+						if iff, ok := pp.Instrs[len(pp.Instrs)-1].(*ssa.If); ok {
+							if b, ok := iff.Cond.(*ssa.BinOp); ok && b.Op == token.GTR && pp.Succs[0] == pred {
+								good = true
+							}
+						}
+					}
+				}
+			}
+			c.Check(good, "chunk-clamp-polarity@"+fname(cw), sl.Pos(), "the chunk end is clamped to len(p) exactly when nn+chunk exceeds it", "the clamp of the chunk end is inverted or missing: the last chunk slices beyond the payload (panic) or chunks are cut short")
+		})
+		// error from the inner writer ends the loop with that error
+		core.Instrs(cw, func(i ssa.Instruction) {
+			if call, ok := i.(*ssa.Call); ok && core.IsInvoke(call, "io.Writer", "Write") {
+				fail := core.NonNilFact(func(v ssa.Value) bool { return core.CallResult(v, 1, func(ci ssa.Instruction) bool { return ci == ssa.Instruction(call) }) != nil })
+				okRet := false
+				core.Instrs(cw, func(j ssa.Instruction) {
+					if r, isR := j.(*ssa.Return); isR && !core.IsNilConst(res(r)[1]) && core.Dominated(r, fail) {
+						okRet = true
+					}
+				})
+				c.Check(okRet, "chunk-error-returned@"+fname(cw), call.Pos(), "an inner write error is returned on its failure branch", "the error of the inner writer is not returned on the failure branch")
+			}
+		})
+	}
+}
+
+func isLenOfCall(call *ssa.Call, x ssa.Value) bool {
+	b, ok := call.Call.Value.(*ssa.Builtin)
+	return ok && b.Name() == "len" && call.Call.Args[0] == x
+}
